@@ -95,6 +95,35 @@ pub fn write_input(dir: &Path, stem: &str, recs: &[Rec], c: &Container) -> PathB
     p
 }
 
+thread_local! {
+    /// when > 0, the executors put this many bytes of left-over text at their output path before the run
+    /// (an earlier, longer result): the run must replace it, not write into it
+    pub static STALE: std::cell::Cell<usize> = std::cell::Cell::new(0);
+}
+
+pub fn set_stale(n: usize) {
+    STALE.with(|s| s.set(n));
+}
+
+/// called by the executors with the path they are about to produce
+pub fn plant_stale(p: &Path) {
+    let n = STALE.with(|s| s.get());
+    let _ = std::fs::remove_file(p);
+    if n > 0 {
+        let line = b"left-over line of an earlier and longer result 0.123456 0.654321 7 8 9\n";
+        let mut junk = Vec::with_capacity(n + line.len());
+        while junk.len() < n {
+            junk.extend_from_slice(line);
+        }
+        std::fs::write(p, &junk).unwrap();
+    }
+}
+
+pub fn stale_strategy() -> proptest::strategy::BoxedStrategy<u32> {
+    use proptest::prelude::*;
+    prop_oneof![5 => Just(0u32), 1 => 1u32..=4_000, 1 => 4_000u32..=300_000].boxed()
+}
+
 pub fn path_str(p: &Path) -> String {
     p.to_string_lossy().to_string()
 }
